@@ -75,7 +75,16 @@ def _run_local(ctx: Ctx, pid: str, extended: bool, names: Optional[List[str]] = 
         for cfg in ad.configs(ctx.tier):
             if cfg.meta.get("only") and pid not in cfg.meta["only"]:
                 continue
-            env = cfg.build()
+            try:
+                env = cfg.build()
+            except (ValueError, AssertionError):
+                if not cfg.meta.get("optional"):
+                    raise
+                # a configuration at the edge of what the constructor accepts: refused on this tree, nothing to check
+                ctx.count(f"{ad.name}.config_refused_by_constructor")
+                continue
+            if cfg.meta.get("optional"):
+                ctx.count(f"{ad.name}.edge_config_accepted")
             runner = Runner(env)
             fn = globals()[f"_{pid.lower()}"]
             fn(ctx, ad, cfg, env, runner, rng, drv, mult)
